@@ -31,6 +31,9 @@ const (
 )
 
 func init() {
+	mutant(&Mutant{Name: "c19-sync-skips-the-extension-lookup", Property: "C19", File: "cmd/minify/main.go",
+		Old: "if mimetype == \"\" && valid {", New: "if mimetype == \"\" && valid && !sync {",
+		Rule: "R19.24", Construct: "has a media type or is copied"})
 	register(&Property{
 		ID:    "C20",
 		Level: "other",
@@ -1216,6 +1219,7 @@ func runC19(c *Ctx) {
 	c.r1921(x)
 	c.r1922(x)
 	c.r1923(x)
+	c.r1924(x)
 	// a bundle written onto one of its inputs: the input is truncated by the open before the lazy reader gets to it,
 	// so the output silently lacks that file — the ordering rule of C20 is a condition of "the library's output" too
 	c.alsoUnder(map[string]string{"R20.1": "R19.13"}, nil, func() { c.r201(x) })
@@ -2976,4 +2980,85 @@ func (c *Ctx) r1923(x *cliCtx) {
 			c.R.Check(p == nil, rule, construct, c.pos(joinN.Ast()), "refused: the join is not reached", "the relative path "+s.rel+" leaves the root and is still joined onto the output directory: "+pathStr(c, g, p))
 		}
 	}
+}
+
+// R19.24: a task that is to be minified has a media type.
+func (c *Ctx) r1924(x *cliCtx) {
+	const rule = "R19.24"
+	c.R.Rule(rule, "minify() gives up on a task whose media type it cannot infer (no --type, extension not in extMap) unless the task is marked for copying. For a file named on the command line createTasks decides that mark itself: every path from the test that the input is a regular file to the NewTask call passes either the successful look-up of the extension in extMap, a test that a media type was given, the assignment that marks the file for copying (`valid = false`), or the outcome `valid == false`. With --sync the look-up used to be skipped and the mark left off: `minify --sync -o out/ src/notes.txt` copied nothing and failed silently, while the same file found in a directory walk is copied")
+	pk, info := x.pk, x.info
+	fd := c.fn(rule, pk, "createTasks")
+	if fd == nil {
+		return
+	}
+	g := c.graph(pk, fd)
+	n := 0
+	for _, y := range g.Nodes {
+		a := y.Ast()
+		if a == nil || y.Kind != flow.KStmt || c.enclosingLit(a) != nil {
+			continue
+		}
+		for _, call := range findCalls(info, a, false, load.Mod+"/cmd/minify.NewTask") {
+			if len(call.Args) != 4 {
+				continue
+			}
+			// the copy mark is the negation of a local flag
+			u, ok := ast.Unparen(call.Args[3]).(*ast.UnaryExpr)
+			if !ok || u.Op != token.NOT {
+				continue
+			}
+			fid, ok := ast.Unparen(u.X).(*ast.Ident)
+			if !ok {
+				continue
+			}
+			flag := info.Uses[fid]
+			// only the branch for a file named on the command line: dominated by IsRegular()
+			var head *flow.Node
+			for _, f := range g.DomFacts(y) {
+				if f.Value && f.Test.Kind == flow.KCond && strings.HasSuffix(nospace(str(f.Test.Expr)), ".IsRegular()") {
+					for _, q := range g.Nodes {
+						if q.Kind == flow.KTrue && q.Of == f.Test {
+							head = q
+						}
+					}
+				}
+			}
+			if head == nil {
+				continue
+			}
+			n++
+			ok2 := func(q *flow.Node) bool {
+				if as, isAs := q.Stmt.(*ast.AssignStmt); isAs && q.Kind == flow.KStmt && len(as.Lhs) == 1 && len(as.Rhs) == 1 {
+					if id, isId := as.Lhs[0].(*ast.Ident); isId && info.Uses[id] == flag && nospace(str(as.Rhs[0])) == "false" {
+						return true
+					}
+				}
+				if (q.Kind != flow.KTrue && q.Kind != flow.KFalse) || q.Of == nil || q.Of.Kind != flow.KCond {
+					return false
+				}
+				e := ast.Unparen(q.Of.Expr)
+				if id, isId := e.(*ast.Ident); isId {
+					if info.Uses[id] == flag && q.Kind == flow.KFalse {
+						return true
+					}
+					// ok of `_, ok := extMap[ext]`
+					if d := c.singleDef(pk, id); d != nil && q.Kind == flow.KTrue && strings.Contains(nospace(str(d)), "extMap[") {
+						return true
+					}
+				}
+				if be, isBe := e.(*ast.BinaryExpr); isBe && strings.Contains(nospace(str(be)), "mimetype") {
+					s := nospace(str(be))
+					if (s == `mimetype==""` || s == `""==mimetype`) && q.Kind == flow.KFalse || (s == `mimetype!=""` || s == `""!=mimetype`) && q.Kind == flow.KTrue {
+						return true
+					}
+				}
+				return false
+			}
+			y := y
+			p := g.Path(flow.Search{From: []*flow.Node{head}, Goal: func(q *flow.Node) bool { return q == y }, Avoid: ok2})
+			c.R.Check(p == nil, rule, fmt.Sprintf("main.createTasks/file named on the command line#%d has a media type or is copied", n), c.pos(call), "extension looked up, --type given, or marked for copying",
+				"a task is created for a file named on the command line without its extension having been looked up and without the copy mark: with --sync a file with an unknown extension is neither minified nor copied: "+pathStr(c, g, p))
+		}
+	}
+	c.R.Floor(rule, "tasks created for files named on the command line", n, 1)
 }
